@@ -39,12 +39,12 @@ ASSUMPTIONS = [
 ]
 BOUNDS = {
     "quick": "4 grids (one read from an MPAS source: coordinates in metres, supplied tables), histories over 8 derived variables + 3 earlier selections on the same source (cross-section, isel, nearest neighbour): none + singles + saturated, subsets of <= 6 faces, iteration orders for n_edge <= 6 (720 orders)",
-    "thorough": "6 grids, histories: none + singles + pairs + saturated, iteration orders n_edge <= 7 (5040) and block partitions on larger grids",
+    "thorough": "7 grids (incl. a kilometre-scale patch across the antimeridian), histories: none + singles + pairs + saturated, iteration orders n_edge <= 7 (5040) and block partitions on larger grids",
 }
 MATS = ["edge_node_connectivity", "face_edge_connectivity", "edge_face_connectivity", "node_face_connectivity", "face_lon", "edge_lon", "node_x", "face_areas"]
 SAT = MATS + ["face_face_connectivity", "edge_node_distances", "edge_face_distances", "bounds", "hole_edge_indices", "n_nodes_per_face", "edge_node_z"]
 GRIDS_Q = ["mixedpatch", "cube", "ships:pyr5", "mpas:pyr5"]
-GRIDS_T = GRIDS_Q + ["amstrip", "prism"]
+GRIDS_T = GRIDS_Q + ["amstrip", "prism", "finequads-am"]
 
 
 def _grid(name):
